@@ -1269,10 +1269,27 @@ class Translator:
                             return 'VEC_PUSH(%s, %s)' % (o, self.e(real[0]))
                         cands = [cn for cn, d in self.ctor_decls.items()
                                  if self._parent_struct(d) == et and len(self._ctor_params(cn)) == len(real)]
+                        if not cands:
+                            # trailing parameters with default arguments: the constructor is chosen by the C types of the
+                            # arguments written at the call; the defaults are the literal initialisers of the declaration
+                            def fits(cn):
+                                ps = self._ctor_params(cn)
+                                if len(ps) <= len(real):
+                                    return False
+                                for a, p_ in zip(real, ps):
+                                    try:
+                                        if self.tm.tname(a['type']).rstrip(' *').rstrip() != self.tm.tname(p_['type']).rstrip(' *').rstrip():
+                                            return False
+                                    except ExtractError:
+                                        return False
+                                return all([x for x in p_.get('inner', []) if x and is_expr(x)] for p_ in ps[len(real):])
+                            cands = [cn for cn, d in self.ctor_decls.items() if self._parent_struct(d) == et and fits(cn)]
                         if len(cands) == 1:
                             cn = cands[0]
                             self.cur.calls.add(cn)
-                            al = ', '.join(['&verif_tmp'] + [self.arg(a, p) for a, p in zip(real, self._ctor_params(cn))])
+                            ps = self._ctor_params(cn)
+                            dflt = [self.e([x for x in p_.get('inner', []) if x and is_expr(x)][-1]) for p_ in ps[len(real):]]
+                            al = ', '.join(['&verif_tmp'] + [self.arg(a, p) for a, p in zip(real, ps)] + dflt)
                             return 'VEC_PUSH(%s, ({ %s verif_tmp; %s(%s); verif_tmp; }))' % (o, et, cn, al)
                         self.abort(n, 'emplace_back: %d constructors of %s with %d parameters in the extraction set' % (len(cands), et, len(real)))
                 is_vec = self.tm.kinds.get(oct0 or '', ('',))[0] == 'vec'
